@@ -79,7 +79,7 @@ for _pid, _text, _also in [
                      "C06": ["C06_fetch_exact", "C06_archive_fetch_exact", "C06_fetch_exact_bytes"],
                      "C13": ["C13_write_trace_spec", "C13_write_economy_bytes"]}[_pid],
         "suites": ["planner", "clone"] + (["cliclone"] if _pid in ("C02", "C03", "C06") else []) + (["clifault"] if _pid == "C05" else [])
-                  + (["hashkey"] if _pid == "C02" else []) + (["cbytes"] if _pid in ("C02", "C03") else []) + (["cliwrites"] if _pid in ("C03", "C13") else []),
+                  + (["hashkey"] if _pid == "C02" else []) + (["cbytes"] if _pid in ("C02", "C03") else []) + (["cliwrites"] if _pid in ("C03", "C13") else []) + (["http"] if _pid == "C06" else []),
         "extra_case_files": {"planner": ["planner-iter"]},
         "needs_cli": _pid in ("C02", "C03", "C06", "C05", "C13"), "also": _also, "rule": _CLONE_RULE, "assumes": _CLONE_ASSUMES,
         "trusted_base": [], "level_text": _text, "level_note": _CLONE_NOTE,
